@@ -93,6 +93,7 @@ func callerContacts(m *sipsp.PSIPMsg, cfg Cfg) []sipsp.PFromBody {
 }
 
 type histOp struct {
+	dirty   []byte // optional: parsed straight into the message's parts after the op
 	in      []byte
 	cuts    []int // last cut == abandon point (may be < len(in))
 	rk      int
@@ -112,10 +113,23 @@ func checkHistory(w *core.Worker, p *ParserDef, cfg Cfg, ops []histOp) (judged i
 func checkHistoryC(w *core.Worker, p *ParserDef, cfg0 Cfg, ops []histOp, cfgs []Cfg) (judged int) {
 	s := sc(w)
 	cfg := cfg0
+	var poolH map[int][]sipsp.Hdr
+	var poolC map[int][]sipsp.PFromBody
 	if cfgs != nil {
 		cfg = cfgs[0]
 	}
 	U := p.New(cfg)
+	if cfgs != nil {
+		// the arrays the object starts with are part of the pool
+		mo := U.(*msgObj)
+		poolH, poolC = map[int][]sipsp.Hdr{}, map[int][]sipsp.PFromBody{}
+		if cfg.HdrCap >= 0 {
+			poolH[cfg.HdrCap] = mo.m.HL.Hdrs
+		}
+		if cfg.ContactCap >= 0 {
+			poolC[cfg.ContactCap] = mo.m.PV.Contacts.Vals
+		}
+	}
 	for st := range ops {
 		op := &ops[st]
 		N := p.New(cfg)
@@ -188,11 +202,32 @@ func checkHistoryC(w *core.Worker, p *ParserDef, cfg0 Cfg, ops []histOp, cfgs []
 		if st > 0 && defin {
 			judged++
 		}
+		if op.dirty != nil {
+			// before the reset the object's parts are used directly (exported fields + exported
+			// part parsers): whatever that leaves behind, Reset/Init must make the object new
+			if mo, ok := U.(*msgObj); ok {
+				core.Guard(func() {
+					n, _ := sipsp.ParseFLine(op.dirty, 0, &mo.m.FL)
+					sipsp.ParseHeaders(op.dirty, n, &mo.m.HL, &mo.m.PV)
+				})
+			}
+		}
 		if cfgs != nil && st+1 < len(ops) {
-			// Init with (possibly) other arrays
+			// Init with (possibly) other arrays; arrays of the same capacity are the SAME slices
+			// each time (a caller cycling through its own pool), never cleaned by the harness
 			next := cfgs[st+1]
 			mo := U.(*msgObj)
-			if pan, pmsg, stk := core.Guard(func() { mo.m.Init(nil, mkHdrs(next.HdrCap), mkContacts(next.ContactCap)) }); pan {
+			if poolH == nil {
+				poolH, poolC = map[int][]sipsp.Hdr{}, map[int][]sipsp.PFromBody{}
+			}
+			if _, ok := poolH[next.HdrCap]; !ok {
+				poolH[next.HdrCap] = mkHdrs(next.HdrCap)
+			}
+			if _, ok := poolC[next.ContactCap]; !ok {
+				poolC[next.ContactCap] = mkContacts(next.ContactCap)
+			}
+			hs, cs := poolH[next.HdrCap], poolC[next.ContactCap]
+			if pan, pmsg, stk := core.Guard(func() { mo.m.Init(nil, hs, cs) }); pan {
 				w.Fail("panic-in-reset/"+p.Name, func() *core.Violation {
 					v := core.V("Init panicked: "+pmsg, op.in, nil)
 					v.Stack = stk
@@ -283,6 +318,15 @@ func RunC12(r *core.Run) {
 				ab = len(in) - rr.Intn(len(in)/3+1)
 			}
 			ops[i] = histOp{in: in, rk: rr.Intn(rkCount), abandon: ab, cuts: CutsRandom(nil, rr, 0, ab, rr.Range(0, 3))}
+			if p.IsMsg && rr.Intn(5) == 0 {
+				d := histInput(rr, p, &cfg, corpus)
+				ops[i].dirty = d[:rr.Intn(len(d)+1)]
+				if rr.Bool() {
+					// ... on an otherwise untouched object
+					ops[i].cuts = []int{}
+					ops[i].abandon = 0
+				}
+			}
 			h = core.Mix(h ^ core.HashBytes(in) ^ uint64(ab))
 		}
 		if j := checkHistory(w, p, cfg, ops); j > 0 {
